@@ -1142,5 +1142,22 @@ func ruleExportCarriesReplayPosition(c *Ctx, r *Report) {
 		}
 		r.Check(installs > 0 && marked, rule, short(fn)+":receive-position-restored", c.pos(fn.Pos()), "the function that installs the resume state marks the exported receive position in the replay detector", "the receive position is exported but the resumed connection never marks it in its replay detector: a record delivered before the export is delivered again after the resume")
 	}
+	// ... and with which of the numbers below that position were accepted: a record the exported
+	// connection never saw, inside the window, is one the resumed connection has to deliver. The
+	// exported state is built from the replay detector's accepted set (a field loaded from
+	// Common.ReplayDetector), not from the highest number alone.
+	if reads && r.Prop == "C06" {
+		fromDetector := false
+		for _, b := range fn.Blocks {
+			for _, in := range b.Instrs {
+				if v, ok := in.(ssa.Value); ok {
+					if _, f, _, okF := fieldLoad(v); okF && f == "ReplayDetector" {
+						fromDetector = true
+					}
+				}
+			}
+		}
+		r.Check(fromDetector, rule, short(fn)+":accepted-set", c.pos(fn.Pos()), "the exported state carries which numbers inside the window were accepted", "the exported state carries the highest accepted record number only; the resumed connection marks the whole window below it as received, delivered or not, so a datagram that was delayed across the export and arrives well inside the window is refused although it was never delivered")
+	}
 	r.Check(reads, rule, short(fn)+":receive-position", c.pos(fn.Pos()), "the exported state is built from the receive position too", "the exported state is built without looking at what the connection has received (neither Common.RemoteSequenceNumber nor the replay detector is read): the resumed connection starts with an empty replay window and a record that was delivered before the export is delivered again when it is replayed after the resume")
 }
